@@ -168,12 +168,15 @@ def run(ctx):
                 "with a non-empty payload")
     rep.assumptions = ["the icon is changed only across Resets (it is cached per session by design)",
                        "requests are judged for the topology-discovery service; sizes above 32768 are outside the quantifier"]
-    binary = H.build(ctx.work, "asan")
+    binary, plainf = H.build_many(ctx.work, [dict(flavour="asan"), dict(flavour="plain")])
     scns = make_scenarios(ctx, ctx.n(600, 15000))
     run_monitored(ctx, binary, scns, monitor, tag="qlt")
+    # the same requests without red zones: a wrong length/flag decision that makes the sanitizer kill the child
+    # before anything is sent becomes an observable wrong response here
+    run_monitored(ctx, plainf, scns, monitor, tag="qlt-plain")
     c = rep.counters
-    rep.need("calls_judged", c.get("calls_judged", 0), 20000)
-    rep.need("reassemblies", c.get("reassemblies", 0), 600)
+    rep.need("calls_judged", c.get("calls_judged", 0), 40000)
+    rep.need("reassemblies", c.get("reassemblies", 0), 1200)
     rep.need("reassemblies_3plus_chunks", c.get("reassemblies_3plus_chunks", 0), 50)
     rep.need("types:unknown", c.get("types:unknown", 0), 100)
     if ctx.quick:
@@ -183,7 +186,11 @@ def run(ctx):
             for typ in (0x0E, 0x11):
                 for lo in range(0, 32769, 4100):
                     args.append([mtu, lo, min(32769, lo + 4100), 1, 1, typ])
-        sweeps.run_sweep(ctx, "c08", args, "C08", binary=sw)
+        res = sweeps.run_sweep(ctx, "c08", args, "C08", binary=sw, crash_is_inconclusive=False)
+        crashed = [a for (a, rc, out, err) in res if rc != 0]
+        if crashed:
+            plain_sw = H.build(ctx.work, "plain", program="vh_sweep", esp32=False)
+            sweeps.run_sweep(ctx, "c08", crashed, "C08", binary=plain_sw)
     else:
         plain = H.build(ctx.work, "plain", program="vh_sweep", esp32=False)
         # exhaustive size x offset for MTU 576 (2.1e9 calls), 16-wide
